@@ -368,6 +368,7 @@ class MonitoredIntegrator:
         ctx.in_step += 1
         ctx.count("steps")
         n_proj0 = len(ctx.proj_log)
+        n_solver_err0 = ctx.counters.get("fp_convergence_errors", 0) + ctx.counters.get("proj_convergence_errors", 0)
         try:
             out = self._real.step(state)
         except mici.errors.IntegratorError as e:
@@ -393,6 +394,12 @@ class MonitoredIntegrator:
         ctx.count("steps_ok")
         self._audit_in_step_reversibility(ctx.proj_log[n_proj0:])
         del ctx.proj_log[:]
+        n_solver_err = ctx.counters.get("fp_convergence_errors", 0) + ctx.counters.get("proj_convergence_errors", 0) - n_solver_err0
+        if n_solver_err:
+            # no integrator of mici retries or falls back: a solve that failed inside a step (forward solve or the
+            # reverse solve of a reversibility check) means the step cannot be vouched for and must not return
+            ctx.violations.append(violation("solver-failure-swallowed", f"solver-failure-swallowed:{type(self._real).__name__}",
+                                            f"{type(self._real).__name__} returned a step although {n_solver_err} iterative solve(s) inside it raised ConvergenceError"))
         if self.constrained:
             self._check_manifold(out, "step")
         if self.reversal is not None:
